@@ -123,3 +123,23 @@ def check(ctx):
                message='trash-restore uses %s (%s): a trashed symlink would be dereferenced'
                        % (e.data['kind'], e.data['prim']))
     ctx.require(rm, 'R18.5: restore has no MOVE')
+    # probes of a trashed payload never follow it (a trashed link is an entry in its own
+    # right: relative and dangling links do not resolve from inside files/)
+    from .c15 import classify
+    for cmd in ('restore', 'rm', 'empty'):
+        bb = ctx.graph(cmd)
+        for p in bb.probes():
+            if not p.data['args'] or p.data['role'] not in ('presence', 'isdir', 'isfile',
+                                                            'stat'):
+                continue
+            kinds, infos = classify(p.data['args'][0])
+            if kinds != {'payload'}:
+                continue
+            # isdir/stat used for display (size) are not decisions about presence
+            if p.data['role'] == 'stat':
+                continue
+            ctx.ob('R18.5', '%s: a test on a trashed payload does not follow symlinks' % cmd,
+                   not p.data['follow'], node=p,
+                   message='%s decides about a trashed payload with %s, which follows '
+                           'symlinks: a trashed relative or dangling link "does not exist" '
+                           'and is not restored / removed' % (cmd, p.data['prim']))
